@@ -8,6 +8,20 @@ ROOT = os.path.dirname(os.path.dirname(os.path.abspath(__file__)))
 
 # id -> (category, technique, text, note, design_ref)
 CHECKS = {
+    "C17": (
+        "exploration",
+        "reference predicate over real temp directory trees: find() and list() of the real finder compared with the statement's allow/forbid rule and with each other; traversal probes",
+        "6k (quick) / 600k (thorough) (tree, configuration) pairs: files with multi-dot / look-alike / metacharacter names in nested directories, allowed/forbidden lists of dotted suffixes and compiled regexes (incl. anchored ones and one that matches only the absolute root), defaults, empty lists and the deprecated setting name; every file is looked up through find() and list(); traversal, absolute and prefix-trick lookups must raise SuspiciousFileOperation or return nothing; defaults must never expose .py/.pyc/.html/... files.",
+        "Regexes are taken to apply to the path relative to the component dir; where that differs from the bare name only find/list agreement is judged.",
+        "DESIGN.md §2 C17",
+    ),
+    "C20": (
+        "exploration",
+        "reference walk (os.walk + the statement's rule) vs get_component_files on real temp projects incl. generated Django apps; importlib resolution of returned dotted paths",
+        "3k (quick) / 100k (thorough) temp projects with component dirs configured through COMPONENTS.dirs, legacy STATICFILES_DIRS (plain and tuple form) and app_dirs of generated, really installed apps; underscore-/dot-prefixed files and directories at every level, __init__.py, non-.py files, dotted names, directories named like modules; for each suffix the returned (file, dotted path) multiset must equal the reference and identifier-only paths must resolve through importlib.util.find_spec to the same file.",
+        "Component dirs lie under BASE_DIR and do not overlap; names with consecutive dots are not generated.",
+        "DESIGN.md §2 C20",
+    ),
     "C13": (
         "exploration",
         "round-trip monitor (rendered attributes parsed back with html.parser vs a reference merge), exactly-once escape-level counter for slot content, parsed-element monitor for the js/css end-tag guard",
